@@ -22,7 +22,7 @@ func init() {
 			"(d) on the non-protecting branch the bytes signed are HashTreeRoot(SigningData{ObjectRoot: root, Domain: domain}) of the helper's own parameters; " +
 			"(e) batch results are parallel to the accounts they were requested for through the split by account kind (index-space analysis, and the result space of every batch method is its accounts parameter); " +
 			"(f) len(accounts) == len(roots) is established before the second is indexed by the first's index. " +
-			"Added with the fourth seeding round: (g) slices the callee co-indexes are handed over cut the same way. Added with the fifth seeding round: (x) the cross-cutting rules inside the signer: a result variable shadowed in a nested scope, then used outside it. Added with the sixth seeding round and the false-alarm regression: (x) no slice parameter is sorted in place in the signer. NOT decided: BLS verification, SSZ merkleisation (library), behaviour of Dirk's multi-signer.",
+			"Added with the fourth seeding round: (g) slices the callee co-indexes are handed over cut the same way. Added with the fifth seeding round: (x) the cross-cutting rules inside the signer: a result variable shadowed in a nested scope, then used outside it. Added with the sixth seeding round and the false-alarm regression: (x) no slice parameter is sorted in place in the signer. Added with the seventh seeding round: (k) the groups a batch is split into are signed independently (the second group's test is reached whether or not the first group was empty); (y) C05.k is taken over. NOT decided: BLS verification, SSZ merkleisation (library), behaviour of Dirk's multi-signer.",
 		Technique: "table agreement against the specification (field -> spec key in New composed with method -> field), provenance of call arguments and composite-literal fields by parameter name, index-space analysis with verified result summaries, guard/edge-deletion for nil and length tests",
 		Rule:      "obligations per signing method (a,b,c), per signing helper (d,f), per function with indexed accesses and per batch method (e)",
 	})
@@ -441,7 +441,11 @@ func runC06(p *core.Prog, r *core.Report, tier string) {
 			}
 		}
 	}
-	r.Floor("C06.k pairs of independently signed groups", nGroups, 2)
+	// no floor: groups signed from a loop over the groups have no such pair (the catalogue edit C06-m-seed-M is the positive example)
+	r.Count("C06.k pairs of independently signed groups", nGroups)
+	if nGroups == 0 {
+		r.Hold("C06.k", "no-pairs-of-group-tests", "", "no signing method tests two of its groups one after the other")
+	}
 }
 
 // domainKeyOfLeaf resolves one leaf stored into a domain-type field of New to its spec key, checking that a
